@@ -103,9 +103,11 @@ def check_C06(chk):
     c06b(chk)
     c06c(chk)
     c06d(chk)
+    stat_run_hands_spectrum_on(chk, "C06.d")
     c06e(chk)
     f_statistic_formulas(chk)
     cells_paired_with_frequencies(chk)
+    frequency_definition(chk, "C06.e")
     for r, n in (("C06.a", 28), ("C06.b", 16), ("C06.c", 7), ("C06.d", 10), ("C06.e", 6)):
         chk.floor(r, n)
 
@@ -490,6 +492,7 @@ def c06e(chk):
     """axis-role consistency and definitional wiring that is visible in the shape of the code"""
     prog = chk.prog
     import iters as IT
+    single_result_expression(chk, "C06.e")
     f = chk.fn(STAT + "Fst::from_sfs_unchecked")
     if f is not None:
         its = IT.iterations(prog, f)
@@ -614,6 +617,60 @@ def c14b(chk):
         has = any(p.endswith("::into_normalized") or p.endswith("::normalize") for b, p in arms[v])
         chk.ob("C14.b", "calculate/%s/normalised=%s" % (v, norm), has == norm, f.loc(),
                "%s must%s be computed on the normalised spectrum (scale-invariant statistics normalise; linear ones must scale with the input)" % (v, "" if norm else " not"))
+    stat_run_hands_spectrum_on(chk, "C14.b")
+
+
+def stat_run_hands_spectrum_on(chk, rule):
+    """`sfs stat` computes what was asked on what was read: between read()? and the runner the CLI glue looks at the spectrum through nothing
+    (a pre-check such as `segregating_sites() < 1.0` makes the outcome of every statistic depend on the scale of the input)"""
+    prog = chk.prog
+    f = chk.fn("sfs::stat::Stat::run")
+    if f is None:
+        return
+    rd = an.calls(f, "sfs_core::spectrum::io::read::Builder::read")
+    if len(rd) != 1:
+        chk.fail(rule, "Stat::run/read", f.loc(), "expected one read() call, found %d" % len(rd))
+        return
+    tb = an.try_branch_of(f, rd[0][0])
+    import rules_io as RIO
+    # the spectrum: the Continue payload of read()?
+    scs = None
+    if tb is not None:
+        for b_, i_, p_, rv_, s_ in f.assigns():
+            if rv_["k"] == "use" and not p_[1]:
+                pl = op_place(rv_["op"])
+                if pl and pl[1] and any(e[0] == "downcast" and e[1] == "Continue" for e in pl[1]) and "Spectrum" in f.local_ty(p_[0]):
+                    scs = f.copy_root(p_[0]) if f.single_def(p_[0]) else p_[0]
+    if scs is None:
+        chk.fail(rule, "Stat::run/spectrum", f.loc(), "the spectrum read was not found")
+        return
+    roots = {scs}
+    changed = True
+    while changed:
+        changed = False
+        for b_, i_, p_, rv_, s_ in f.assigns():
+            if p_[1] or p_[0] in roots:
+                continue
+            src = None
+            if rv_["k"] == "use":
+                pl = op_place(rv_["op"])
+                src = pl[0] if pl and not pl[1] else None
+            elif rv_["k"] == "ref":
+                pl = P(rv_["place"])
+                src = pl[0]
+            if src in roots:
+                roots.add(p_[0])
+                changed = True
+    users = []
+    for b_, t_ in f.calls():
+        for a_ in t_["args"]:
+            pl = op_place(a_)
+            if pl and pl[0] in roots:
+                users.append(callee_name(t_["callee"]))
+    other = sorted({u for u in users if not u.endswith("Runner::<W>::new") and "Runner" not in u.split("::new")[0].split("::")[-1] + u})
+    other = sorted({u for u in users if "::runner::Runner" not in u})
+    chk.ob(rule, "Stat::run/spectrum-goes-to-the-runner-only", bool(users) and not other, f.loc(rd[0][0]),
+           "the spectrum read is handed to stat::runner::Runner and used by nothing else in Stat::run (other users: %s)" % (other or "none"))
 
 
 def const_index_arrays(chk, f):
@@ -722,6 +779,103 @@ def _interior_window(chk, f):
     return best[1] if best else None
 
 
+def single_result_expression(chk, rule):
+    """every statistic is one expression of the sums it accumulates, on every path: the value-computing functions of spectrum::stat define
+    their result once and not as a literal (an early `return NaN / 0.0` under a test on the accumulated sums makes the statistic depend on
+    the overall scale and on the monomorphic mass, which the definitions do not)"""
+    prog = chk.prog
+    n = 0
+    for f in prog.fn_list:
+        if f.derived or f.kind == "Closure" or "::spectrum::stat::" not in f.path:
+            continue
+        nm = f.path.split("::")[-1]
+        if not (nm.endswith("_unchecked") or nm in ("variance",)):
+            continue
+        ds = f.defs.get(0, [])
+        lit = [d for d in ds if d[0] == "assign" and ((d[3]["k"] == "use" and d[3]["op"]["k"] == "const") or
+                                                     (d[3]["k"] == "aggregate" and d[3]["ops"] and all(o["k"] == "const" for o in d[3]["ops"])))]
+        n += 1
+        chk.fns_analysed.add(f.path)
+        short = f.path.split("spectrum::stat::")[-1]
+        chk.ob(rule, "%s/one-result-expression" % short, len(ds) == 1 and not lit, f.loc(),
+               "the result is defined once, from computed values (definitions: %d, literal results: %d)" % (len(ds), len(lit)))
+    chk.ob(rule, "statistics/result-expressions-found", n >= 10, "", "%d value-computing functions in spectrum::stat" % n, nontrivial=False)
+
+
+def frequency_definition(chk, rule):
+    """the k-th allele frequency of a cell is index[k] / (shape[k] - 1): in FrequenciesIter::next (with its closures and inlined helpers) there is
+    one f64 division, of the zipped index by (the zipped axis length - 1) - no second formula for special cases"""
+    prog = chk.prog
+    import iters as IT
+    f = chk.fn("<sfs_core::spectrum::iter::FrequenciesIter<'a> as core::iter::traits::iterator::Iterator>::next")
+    if f is None:
+        return
+    unit = [f]
+    i = 0
+    while i < len(unit):
+        unit += [c for c in prog.closures_of(unit[i].path) if c not in unit]
+        i += 1
+    divs = []
+    for g in unit:
+        chk.fns_analysed.add(g.path)
+        for b, i_, p, rv, s_ in g.assigns():
+            if rv["k"] == "binop" and rv["op"] == "Div" and "f64" in (rv.get("lty") or g.local_ty(p[0]) or ""):
+                divs.append((g, b, rv))
+
+    def strip(g, op, n=0):
+        """operand behind casts and copies"""
+        l = op_local(op)
+        while l is not None and n < 12:
+            n += 1
+            d = g.single_def(l)
+            if d and d[0] == "assign" and d[3]["k"] == "cast":
+                op = d[3]["op"]
+                l = op_local(op)
+                continue
+            if d and d[0] == "assign" and d[3]["k"] == "use" and op_local(d[3]["op"]) is not None and not op_place(d[3]["op"])[1]:
+                op = d[3]["op"]
+                l = op_local(op)
+                continue
+            break
+        return op
+
+    def minus_one_of(g, op):
+        """x if the operand is `x - 1` (operator on values or on references), else None"""
+        op = strip(g, op)
+        pl = op_place(op)
+        if pl is None:
+            return None
+        l, proj = pl
+        if proj and len(proj) == 1 and proj[0][0] == "field" and proj[0][1] == 0:
+            d = g.single_def(l)
+            if d and d[0] == "assign" and d[3]["k"] == "binop" and d[3]["op"].startswith("Sub") and const_val(d[3]["r"]) == 1:
+                return d[3]["l"]
+            return None
+        d = g.single_def(l)
+        if d and d[0] == "assign" and d[3]["k"] == "binop" and d[3]["op"].startswith("Sub") and const_val(d[3]["r"]) == 1:
+            return d[3]["l"]
+        if d and d[0] == "call" and (d[2]["callee"].get("path") or "") == "core::ops::arith::Sub::sub" and len(d[2]["args"]) == 2 and const_val(d[2]["args"][1]) == 1:
+            return d[2]["args"][0]
+        return None
+
+    ok = False
+    why = "%d f64 division(s) in %s" % (len(divs), [g.path.split("::")[-1] for g in unit])
+    if len(divs) == 1:
+        g, b, rv = divs[0]
+        its = [it for h in unit for it in IT.iterations(prog, h) if it.body is g and (it.kind != "loop" or b in it.blocks)]
+        for it in its:
+            num = it.elem_path(strip(g, rv["l"]))
+            x = minus_one_of(g, rv["r"])
+            den = it.elem_path(strip(g, x)) if x is not None else None
+            names = IT.chain_names(it.chain())
+            if num == (0,) and den == (1,) and "zip" in names:
+                ok = True
+            why = "numerator = element%s, divisor = element%s - 1 of %s" % (num, den, it.describe())
+            if ok:
+                break
+    chk.ob(rule, "FrequenciesIter::next/frequency_k=index_k/(shape_k-1)", ok, f.loc(), why)
+
+
 def c14d(chk):
     for path, key in ((SCS + "segregating_sites", "S"),
                       (STAT + "theta::private::Estimator::estimate_unchecked", "theta(default estimator: pi, Watterson)"),
@@ -731,6 +885,7 @@ def c14d(chk):
         if f is None:
             continue
         interior_only(chk, f, "C14.d", "%s/interior-only" % key)
+    single_result_expression(chk, "C14.d")
     # theta::FuLi reads the singleton class only (constant index 1)
     f = chk.fn("<sfs_core::spectrum::stat::theta::FuLi as sfs_core::spectrum::stat::theta::private::Estimator>::estimate_unchecked")
     if f is not None:
